@@ -102,6 +102,10 @@ type WL struct {
 	Reader   string `json:"reader,omitempty"`  // eager | late | stop
 	StopAt   int    `json:"stop_at,omitempty"` // reader stops after this many values (reader == stop)
 	CloseOut bool   `json:"close,omitempty"`   // writer channel closed after all writers finished
+	// pnq mode (parallel node queries): node ids, per node 0/1 = kind N, 2 = kind M; Driver = query | stream |
+	// fetch; Cut = with a kind criterion; Workers
+	PIDs   []uint64 `json:"pids,omitempty"`
+	PKinds []int    `json:"pkinds,omitempty"`
 }
 
 var errInjected = errors.New("injected fault")
@@ -122,6 +126,10 @@ func gen(r *rand.Rand) WL {
 		return genPipe(r)
 	case 2:
 		return genSeq(r)
+	case 3:
+		if r.IntN(2) == 0 {
+			return genPNQ(r)
+		}
 	}
 	w.Mode = "bfs"
 	genGraph(r, &w)
@@ -750,6 +758,8 @@ func exec(t *testing.T, w WL, cfg simrt.Config) simh.Outcome {
 		return execPipe(t, w, cfg)
 	case "seq":
 		return execSeq(t, w, cfg)
+	case "pnq":
+		return execPNQ(t, w, cfg)
 	}
 	return execBFS(t, w, cfg)
 }
